@@ -125,6 +125,13 @@ def run(ctx: Ctx) -> None:
             for o in spec["ops"]:
                 if o["op"] == "add":
                     o["pulse"]["phase"] = ph[0]
+        if tau == "roundtrip":
+            # integer ids whose numeric and lexicographic orders differ from each other and from the register order: the
+            # serialised sequence carries them as strings ("10" < "2" < "9")
+            pool = rng.sample([2, 10, 9, 33, 100, 7, 41, 5], na)
+            spec["ids"] = pool
+            if spec.get("dmm"):
+                spec["dmm"]["weights"] = {pool[int(k[1:])]: v for k, v in spec["dmm"]["weights"].items()}
         b = transform(spec, tau, rng)
         dur = scen.spec_duration(spec)
         dt = float(rng.choice([d for d in (2, 4, 5, 10) if dur % d == 0]))
@@ -141,6 +148,7 @@ def run(ctx: Ctx) -> None:
         if r["error"]:
             if r["stage"] == "build":
                 ctx.notes.append(f"pair {job['id']} not built: {r['error'][:100]}")
+                ctx.log(f"pair {job['id']} ({job['tau']}) not built: {r['error'][:160]}")
                 continue
             if r["stage"] == "run":
                 ctx.violation(f"meta:{job['backend']}:{job['tau']}:run-raised", f"a run of the pair raised: {r['error'][:300]}", job)
